@@ -259,8 +259,11 @@ class sequence_variables:
                 else:
                     half = count // 2
                     try:
-                        data['median-%s' %
-                             name] = (values[half] + values[half - 1]) // 2
+                        mid = values[half] + values[half - 1]
+                        # floor division only for integers: for floats it
+                        # would leave the two middle values
+                        data['median-%s' % name] = (
+                            mid // 2 if isinstance(mid, int) else mid / 2)
                     except Exception:
                         try:
                             data['median-%s' %
